@@ -340,11 +340,19 @@ void mon_c17(CaseCtx &c, Rng &){
         std::string cls = s.parallel ? (((long) s.budget - known_before < (long)(s.jobs * s.batch)) ? "parallel:remaining-budget-smaller-than-workers-x-batch" : std::string("parallel:") + fam_name(s.family))
                                      : std::string("sequential:") + fam_name(s.family);
         // recorded finding F-ckpt3: samples parked inside the grid's construction data at the time of the checkpoint are not counted after a
-        // restart; that specific cause (sequential restart, overshoot not larger than the number of parked samples) gets its own key
-        if (mode == "restart" && !s.parallel && have_saved && g_hooks.recovered_points >= 0){
-            long parked = nsaved - g_hooks.recovered_points;
-            long over = std::max(total, (long) grid.getNumLoaded()) - (long) s.budget;
-            if (parked > 0 && over > 0 && over <= parked) cls += ":restart-with-parked-samples-not-counted";
+        // restart.  That specific cause is recognised by conservation: the library stayed within the budget for the samples it knows of
+        // (recovered loaded + stored, plus what it launched here), yet the final grid holds more points than those two numbers explain -
+        // the difference can only be samples that were parked in the recovered file.
+        if (mode == "restart" && g_hooks.recovered_points >= 0){
+            long unexplained = (long) grid.getNumLoaded() - g_hooks.recovered_points - launched.load();
+            if (launched.load() + g_hooks.recovered_points <= (long) s.budget && unexplained > 0)
+                cls = std::string(s.parallel ? "parallel:" : "sequential:") + fam_name(s.family) + ":restart-with-parked-samples-not-counted";
+            // sequential mode: the model log gives the exact set of samples saved by the last completed checkpoint, parked ones included
+            if (!s.parallel && have_saved){
+                long parked = nsaved - g_hooks.recovered_points;
+                long over = std::max(total, (long) grid.getNumLoaded()) - (long) s.budget;
+                if (parked > 0 && over > 0 && over <= parked) cls = std::string("sequential:") + fam_name(s.family) + ":restart-with-parked-samples-not-counted";
+            }
         }
         if (total > (long) s.budget)
             c.viol("budget-exceeded:" + cls, J().i("budget", s.budget).i("distinct_saved_or_evaluated", total).i("launched_here", launched.load()).i("saved_before", nsaved)
